@@ -67,7 +67,11 @@ SETTINGS = [None, None, None,
 DEFAULT_EQUIV = [{}, {"DATE_ORDER": "MDY"}, {"PREFER_LOCALE_DATE_ORDER": True}, {"NORMALIZE": True}, {"SKIP_TOKENS": ["t"]},
                  {"TIMEZONE": "local"}, {"PREFER_DATES_FROM": "current_period"}, {"STRICT_PARSING": False},
                  {"DATE_ORDER": "MDY", "NORMALIZE": True}, {"RETURN_TIME_AS_PERIOD": False}, {"CACHE_SIZE_LIMIT": 1000}]
-BAD_SETTINGS = [{"FOO": 1}, {"DATE_ORDER": "XYZ"}, {"PARSERS": ["x"]}, {"TIMEZONE": 5}, {"REQUIRE_PARTS": ["day", "day"]}, {"TIMEZONE": "Mars/Olympus"}]
+BAD_SETTINGS = [{"FOO": 1}, {"DATE_ORDER": "XYZ"}, {"PARSERS": ["x"]}, {"TIMEZONE": 5}, {"REQUIRE_PARTS": ["day", "day"]}, {"TIMEZONE": "Mars/Olympus"},
+                # wrongly typed values that print like valid values used elsewhere in the pools (validation must not depend on
+                # what was validated before)
+                {"STRICT_PARSING": "True"}, {"NORMALIZE": "False"}, {"CACHE_SIZE_LIMIT": "2"}, {"CACHE_SIZE_LIMIT": "1"},
+                {"PREFER_LOCALE_DATE_ORDER": "False"}, {"RETURN_AS_TIMEZONE_AWARE": "True"}, {"REQUIRE_PARTS": "['year']"}, {"SKIP_TOKENS": "['de']"}]
 FORMATS = [None, None, None, ["%d-%m-%Y"], ["%m/%d/%y"], ["%B %Y"], ["%Y"]]
 CAL_STRINGS = ["1394/06/26", "26 شهریور 1394", "جمعه سی ام اسفند ۱۳۸۷", "1390-13-45", "x"]
 HIJRI_STRINGS = ["17-01-1437 هـ 08:30 مساءً", "1437/01/17", "30-02-1433", "y"]
@@ -465,6 +469,28 @@ def triples(draw):
         if draw(st.booleans()):
             h.append(ns_call())
         h.append(copy.deepcopy(first))
+        return {"history": h}
+    if sc == 15:
+        pair = draw(st.sampled_from([({"STRICT_PARSING": True}, {"STRICT_PARSING": "True"}), ({"NORMALIZE": False}, {"NORMALIZE": "False"}),
+                                     ({"CACHE_SIZE_LIMIT": 2}, {"CACHE_SIZE_LIMIT": "2"}), ({"PREFER_LOCALE_DATE_ORDER": False}, {"PREFER_LOCALE_DATE_ORDER": "False"}),
+                                     ({"REQUIRE_PARTS": ["year"]}, {"REQUIRE_PARTS": "['year']"}), ({"RETURN_AS_TIMEZONE_AWARE": True}, {"RETURN_AS_TIMEZONE_AWARE": "True"})]))
+        L = draw(st.sampled_from(LANGS[1:]))
+        s_ = draw(st.sampled_from(STRINGS))
+        h = [["parse", s_, None, L, None, None, copy.deepcopy(pair[0])]]
+        if draw(st.booleans()):
+            h.append(["new_parser", 0, L, None, None, False, copy.deepcopy(pair[0])])
+        h.append(["parse", draw(st.sampled_from([s_, "", "1500000000", "2015-02-03"])), None, L, None, None, copy.deepcopy(pair[1])])
+        return {"history": h}
+    if sc == 16:
+        # sequences of zone-bearing strings (the zone popper scans an ordered table; anything it remembers between calls shows
+        # up as 'UTC+03:00' read after a plain 'UTC')
+        zs = ["2015-02-03 14:05 UTC", "2015-02-03 14:05 UTC+03:00", "2 hours ago UTC+3", "10:00 GMT", "10:00 GMT-5", "3 Feb 2015 14:05 EST",
+              "2015-02-03 14:05 +0530", "3 Feb 2015 14:05 (IST)", "2015-02-03T14:05:00Z", "yesterday 10:00 UTC", "2015-02-03 14:05 GMT+0530 (IST)",
+              "3 February 2015 2 PM CST", "2015-02-03 14:05 UTC-05:00"]
+        L = draw(st.sampled_from([["en"], ["en"], None, ["en", "fr"]]))
+        h = [["parse", draw(st.sampled_from(zs)), None, L, None, None, None] for _ in range(draw(st.integers(2, 4)))]
+        if draw(st.booleans()):
+            h.insert(1, ["search", "Meeting on 3 Feb 2015 14:05 UTC. Then 4 Feb 2015 10:00 UTC+3.", ["en"], None, False])
         return {"history": h}
     if sc == 19:
         # autodetection sequences with default settings through the top-level function: a non-English string first, then
